@@ -787,6 +787,22 @@ func (e *Enc) evalCall(env *Env, n *ast.CallExpr) TV {
 			e.evalFail(env, "held(): mutex of unknown identity")
 		}
 		return TV{V: Sc{sel(e.getVar(env.st, key, lockSort), idx)}, Ty: boolT}
+	case "refOf":
+		// identity of the object a pointer refers to (as a number, for ghost variables)
+		a := e.eval(env, n.Args[0])
+		if p, ok := a.V.(Ptr); ok && (p.K == pHeap || p.K == pOpaque) {
+			return TV{V: Sc{p.Ref}, Ty: types.Typ[types.Uint64]}
+		}
+		if i, ok := a.V.(Ifc); ok {
+			// an interface value that statically holds a pointer
+			if p, ok := i.Dyn.(Ptr); ok && (p.K == pHeap || p.K == pOpaque) {
+				return TV{V: Sc{p.Ref}, Ty: types.Typ[types.Uint64]}
+			}
+		}
+		if isNilOp(a.V) {
+			return TV{V: Sc{bv64(0)}, Ty: types.Typ[types.Uint64]}
+		}
+		e.evalFail(env, "refOf expects a pointer to an object")
 	case "arrayOf", "offsetOf":
 		// identity of a slice's backing array / its offset in it (as numbers, so
 		// that ghost variables can remember a slice seen earlier)
